@@ -262,9 +262,9 @@ func runVar(c VarCase, r *runlog.R) error {
 
 var subVarEnum = runlog.Register(&runlog.Sub[VarCase]{
 	Name: "varexp-enum",
-	Rule: "every string up to length 5 (quick) / 7 (thorough) over `$ { } : + ? a . 0 ,` stored as a setting (top level, inside an object, inside a list) under PathSep+VarExp, then read through Unpack (map, list, struct), all typed getters, Child, Has, CountField, PathOf, FlattenedKeys, use as merge source (default and append) and CompareConfigs, with and without Env and a resolver whose text parses into a list; must return and leave no goroutine behind. Non-trivial: creating or reading the setting returns an error.",
+	Rule: "every string up to length 4 (quick) / 7 (thorough) over `$ { } : + ? a . 0 ,` stored as a setting (top level, inside an object, inside a list) under PathSep+VarExp, then read through Unpack (map, list, struct), all typed getters, Child, Has, CountField, PathOf, FlattenedKeys, use as merge source (default and append) and CompareConfigs, with and without Env and a resolver whose text parses into a list; must return and leave no goroutine behind. Non-trivial: creating or reading the setting returns an error.",
 	Enum: func(yield func(VarCase) bool) {
-		enumStrings(varAlpha, runlog.Pick(5, 7), func(s string) bool { return yield(VarCase{S: s}) })
+		enumStrings(varAlpha, runlog.Pick(4, 7), func(s string) bool { return yield(VarCase{S: s}) })
 	},
 	Run:     runVar,
 	Journal: true,
@@ -291,7 +291,7 @@ var subVarRand = runlog.Register(&runlog.Sub[VarCase]{
 	Journal: true,
 })
 
-func TestVarExpRandom(t *testing.T) { subVarRand.Check(t, 20000, 1000000) }
+func TestVarExpRandom(t *testing.T) { subVarRand.Check(t, 40000, 1000000) }
 
 // ---------------------------------------------------------------------------
 // (b) format loaders on bytes
@@ -483,7 +483,7 @@ var subPath = runlog.Register(&runlog.Sub[PathCase]{
 	Journal: true,
 })
 
-func TestPathOps(t *testing.T) { subPath.Check(t, 60000, 3000000) }
+func TestPathOps(t *testing.T) { subPath.Check(t, 40000, 3000000) }
 
 // ---------------------------------------------------------------------------
 // (e) arbitrary unpack targets and (f) arbitrary merge sources
@@ -773,6 +773,6 @@ var subSources = runlog.Register(&runlog.Sub[TargetCase]{
 	Run:  runSource,
 })
 
-func TestMergeSources(t *testing.T) { subSources.Check(t, 30000, 1500000) }
+func TestMergeSources(t *testing.T) { subSources.Check(t, 20000, 1500000) }
 
 func TestReplay(t *testing.T) { runlog.ReplayMain(t) }
